@@ -6,6 +6,7 @@ def run(ctx):
     satlayer.rule_header(ctx)
     satlayer.rule_clause_store(ctx)
     satlayer.rule_child_pipes(ctx)
+    satlayer.rule_reply_is_stdout(ctx)
     satlayer.rule_reply_parser(ctx)
     satlayer.rule_verdict_tables(ctx)
     ctx.assume("rustc's MIR; std::process / std::io semantics of wait, read_to_end, piped stdio")
